@@ -176,8 +176,19 @@ class TlcResult:
         self.wall = 0.0
 
 
+_LIVE = set()
+
+
+def kill_live():
+    for p in list(_LIVE):
+        try:
+            p.kill()
+        except Exception:
+            pass
+
+
 def run_tlc(module, cfg=None, env=None, workdir=None, timeout=1500, workers=1, xmx="2g",
-            extra=None, deque=False):
+            extra=None, deque=False, coverage=False):
     """Runs TLC on spec/<module>.tla; returns a TlcResult. Never raises on a property
     outcome; raises ToolError for time-outs and for TLC failing to run the spec."""
     t0 = time.time()
@@ -188,17 +199,25 @@ def run_tlc(module, cfg=None, env=None, workdir=None, timeout=1500, workers=1, x
     e = dict(os.environ)
     e.update(env or {})
     e["JAVA_TOOL_OPTIONS"] = jopts
-    cmd = ["timeout", str(timeout), "java", "-XX:+UseParallelGC", "-XX:ParallelGCThreads=%d" % max(2, workers), "-Xmx" + xmx, "-cp", TLA_CP, "tlc2.TLC",
-           "-workers", str(workers), "-metadir", meta, "-cleanup", "-noGenerateSpecTE", "-coverage", "1",
+    # note: -coverage is only switched on for model-checking runs that ask for it; on the recursive
+    # operators of the trace specifications its bookkeeping is pathological (minutes and gigabytes
+    # for a trace that is judged in two seconds without it)
+    cmd = ["timeout", "-k", "5", str(timeout), "java", "-XX:+UseParallelGC", "-XX:ParallelGCThreads=%d" % max(2, workers), "-Xmx" + xmx, "-cp", TLA_CP, "tlc2.TLC",
+           "-workers", str(workers), "-metadir", meta, "-cleanup", "-noGenerateSpecTE"] + (["-coverage", "1"] if coverage else []) + [
            "-config", (cfg or module) + ".cfg"] + (extra or []) + [module + ".tla"]
-    p = subprocess.run(cmd, cwd=SPEC, env=e, stdout=subprocess.PIPE, stderr=subprocess.STDOUT, text=True)
+    p = subprocess.Popen(cmd, cwd=SPEC, env=e, stdout=subprocess.PIPE, stderr=subprocess.STDOUT, text=True)
+    _LIVE.add(p)
+    try:
+        stdout, _ = p.communicate()
+    finally:
+        _LIVE.discard(p)
     shutil.rmtree(meta, ignore_errors=True)
     r = TlcResult()
-    r.out = p.stdout
+    r.out = stdout
     r.wall = time.time() - t0
-    if p.returncode == 124:
+    if p.returncode in (124, 137):
         raise ToolError("TLC timed out on %s" % module)
-    for line in p.stdout.splitlines():
+    for line in stdout.splitlines():
         m = TLC_REJECT.match(line)
         if m:
             r.rejects.append((int(m.group(1)), json.loads(json.loads(m.group(2)))))
@@ -220,8 +239,8 @@ def run_tlc(module, cfg=None, env=None, workdir=None, timeout=1500, workers=1, x
     for i, x in r.rejects:
         seen[i] = x
     r.rejects = sorted(seen.items())
-    r.ok = "Model checking completed. No error has been found." in p.stdout
-    r.finished = "Model checking completed" in p.stdout or "Finished in" in p.stdout
+    r.ok = "Model checking completed. No error has been found." in stdout
+    r.finished = "Model checking completed" in stdout or "Finished in" in stdout
     return r
 
 
@@ -253,8 +272,12 @@ def validate_events(events, module, scratch, chunk=None, timeout=1500, env=None,
             tlc_failed(r, "%s chunk %d (%d events, depth %d)" % (module, k, len(chunks[k]), r.depth))
         return r
 
-    with ThreadPoolExecutor(MAX_TLC) as ex:
-        rs = list(ex.map(one, range(len(chunks))))
+    try:
+        with ThreadPoolExecutor(MAX_TLC) as ex:
+            rs = list(ex.map(one, range(len(chunks))))
+    except BaseException:
+        kill_live()
+        raise
     rejected = {}
     stats = {"states": 0, "transitions": 0, "tlc_runs": len(rs), "actions": {}, "tlc_wall_s": 0.0}
     for k, r in enumerate(rs):
@@ -271,9 +294,13 @@ def validate_events(events, module, scratch, chunk=None, timeout=1500, env=None,
     return rejected, stats
 
 
-def model_check(module, scratch, cfg=None, workers=4, timeout=1500, xmx="4g", env=None, extra=None):
-    r = run_tlc(module, cfg=cfg, env=env, workdir=scratch.dir, timeout=timeout, workers=workers, xmx=xmx, extra=extra)
-    return r
+def model_check(module, scratch, cfg=None, workers=4, timeout=1500, xmx="4g", env=None, extra=None, coverage=True):
+    r = run_tlc(module, cfg=cfg, env=env, workdir=scratch.dir, timeout=timeout, workers=workers, xmx=xmx, extra=extra,
+                coverage=coverage)
+    if not r.ok:
+        tlc_failed(r, module)
+    return {"module": module, "states": r.distinct, "transitions": r.generated, "depth": r.depth,
+            "actions": r.actions, "wall_s": round(r.wall, 1)}
 
 
 # ---------------------------------------------------------------------------------------
